@@ -27,6 +27,7 @@ TRUSTED = [
 ]
 
 _FMT = None
+_SCRATCH = "/tmp"      # per-job directories live under the run's scratch root (removed by ctx.finish)
 
 
 def _init():
@@ -62,6 +63,19 @@ def _fld(tv, fid):
     return None
 
 
+def _pandas_meta(tv):
+    """the JSON document stored under the key 'pandas' in FileMetaData.key_value_metadata, or None"""
+    kv = _fld(tv, 5)
+    for e in (kv[2] if kv else []):
+        k, v = _fld(e, 1), _fld(e, 2)
+        if k and bytes(k[1]) == b"pandas" and v:
+            try:
+                return json.loads(bytes(v[1]).decode("utf-8"))
+            except Exception:   # noqa
+                return None
+    return None
+
+
 def _strip_paths(rg):
     """RowGroup tv with ColumnChunk.file_path removed"""
     cols = _fld(rg, 1)
@@ -69,6 +83,45 @@ def _strip_paths(rg):
     for c in (cols[2] if cols else []):
         out.append([b"r", [[i, v] for i, v in c[1] if i != 1]])
     return [out, _fld(rg, 2), _fld(rg, 3)]
+
+
+def page_model_check(fm, data, leaves, rgs):
+    """byte-level tie of Impl/WPagesFmt.v: every PLAIN data page of a non-dictionary, non-BOOLEAN chunk must be exactly
+    the payload the writer model lays out for the cells it holds.  -> (pages compared, [mismatch descriptions])"""
+    from harness import pqfile, fmtlib
+    fmd, _ = pqfile.read_footer(data)
+    n, bad = 0, []
+    for rg, rgcells in zip(fmd.row_groups, rgs):
+        for col, l, cells in zip(rg.columns, leaves, rgcells):
+            m = col.meta_data
+            if l["type"] == 0:
+                continue
+            pages, _, _ = pqfile.chunk_pages(data, m)
+            if any(p["type"] == 2 for p in pages):
+                continue
+            at = 0
+            for p in pages:
+                if p["type"] not in (0, 3) or p["encoding"] != 0:
+                    at += p.get("num_values", 0)
+                    continue
+                pc = cells[at:at + p["num_values"]]
+                at += p["num_values"]
+                payload = p["payload"]
+                if p["type"] == 0:
+                    raw = payload if not m.codec else fmtlib.CODECS[m.codec][1](payload, p["uncompressed_page_size"])
+                else:
+                    dl = p["def_len"]
+                    body = payload[dl:]
+                    if m.codec and p["is_compressed"] is not False:
+                        body = fmtlib.CODECS[m.codec][1](body, p["uncompressed_page_size"] - dl)
+                    raw = payload[:dl] + body
+                r = fm.pq.call("fmt_fp_page", 1 if p["type"] == 3 else 0, 1 if l["maxdef"] else 0, l["type"], l["tlen"],
+                               [[] if c is None else c for c in pc])
+                n += 1
+                if r[0] != b"ok" or bytes(r[1]) != raw:
+                    bad.append("column %s page at %d: model %s..., writer %s..." % (l["name"], p["offset"],
+                               (bytes(r[1]).hex()[:60] if r[0] == b"ok" else r), raw.hex()[:60]))
+    return n, bad
 
 
 def check_dataset(path, df, spec, o, fm):
@@ -81,7 +134,7 @@ def check_dataset(path, df, spec, o, fm):
         allf = []
         for dp, _, fs in os.walk(path):
             allf += [os.path.join(dp, f) for f in fs]
-        parts = sorted([f for f in allf if _part_no(f) >= 0], key=_part_no)
+        parts = sorted([f for f in allf if _part_no(f) >= 0], key=lambda f: (_part_no(f), os.path.relpath(f, path)))
         metas = sorted(f for f in allf if os.path.basename(f) in ("_metadata", "_common_metadata"))
         other = [f for f in allf if f not in parts and f not in metas]
         if other:
@@ -90,6 +143,7 @@ def check_dataset(path, df, spec, o, fm):
             res["problems"].append(("layout", "no _metadata file in a hive/drill dataset"))
     leaves, cols = None, {}
     part_rgs = []
+    part_rows = []
     for fn in parts:
         data = open(fn, "rb").read()
         res["files"] += 1
@@ -108,8 +162,25 @@ def check_dataset(path, df, spec, o, fm):
         for rg in r["rgs"]:
             for l, cells in zip(leaves, rg):
                 cols[l["name"]].extend(cells)
+        part_rows.append((os.path.dirname(os.path.relpath(fn, path)) if os.path.isdir(path) else "",
+                          sum(len(rg[0]) if rg else 0 for rg in r["rgs"])))
+        try:
+            k, bad = page_model_check(fm, data, r["leaves"], r["rgs"])
+            res["model_pages"] = res.get("model_pages", 0) + k
+            res.setdefault("model_bad", []).extend(bad[:2])
+        except Exception as e:    # noqa
+            res.setdefault("model_bad", []).append("harness: %s: %s" % (type(e).__name__, e))
+        tv = _footer_tv(fm, data)
+        pm = _pandas_meta(tv)
+        if pm is None:
+            res["problems"].append(("metadata", "%s: key_value_metadata['pandas'] missing or not JSON" % os.path.basename(fn)))
+        else:
+            named = [c.get("name") for c in pm.get("columns", []) if isinstance(c, dict)]
+            pkn = (o.get("partition") or {}).get("name")
+            miss = [str(c) for c in df.columns if str(c) not in [str(x) for x in named] and str(c) != pkn]
+            if miss:
+                res["problems"].append(("metadata", "%s: pandas metadata does not name columns %r" % (os.path.basename(fn), miss[:3])))
         if metas:
-            tv = _footer_tv(fm, data)
             part_rgs += [(os.path.relpath(fn, path), _strip_paths(rg)) for rg in (_fld(tv, 4) or [0, 0, []])[2]]
     for fn in metas:
         data = open(fn, "rb").read()
@@ -145,7 +216,26 @@ def check_dataset(path, df, spec, o, fm):
         return res
     # expected physical table
     import pandas as pd
-    iw = rt.index_expected(df, o)
+    iw = rt.index_expected(df, o)        # decided on the frame as written (before the rows are put into part order)
+    if o.get("partition"):
+        pk = o["partition"]["name"]
+        by_key = {}
+        for i, v in enumerate(df[pk].tolist()):
+            by_key.setdefault(str(v), []).append(i)
+        perm = []
+        for d, n in part_rows:
+            key = d.split("/")[-1]
+            key = key.split("=", 1)[1] if "=" in key else key
+            take, by_key[key] = by_key.get(key, [])[:n], by_key.get(key, [])[n:]
+            if len(take) != n:
+                res["problems"].append(("partition", "directory %r holds %d rows more than the frame has for that key" % (d, n - len(take))))
+            perm += take
+        left = sum(len(v) for v in by_key.values())
+        if left:
+            res["problems"].append(("partition", "%d rows of the frame are in no part file" % left))
+        if any(p[0] == "partition" for p in res["problems"]):
+            return res
+        df = df.iloc[perm].drop(columns=[pk])
     want = {str(c): df[c] for c in df.columns}
     extra = [l["name"] for l in leaves if l["name"] not in want]
     if iw:
@@ -179,15 +269,41 @@ def check_dataset(path, df, spec, o, fm):
     return res
 
 
+def write_partitioned(df, path, spec, o):
+    """rt.write_frame with partition_on (hive / drill directory levels)"""
+    import fastparquet
+    from fastparquet import writer
+    from harness import rt
+    old = writer.MAX_PAGE_SIZE, writer.DATAPAGE_VERSION
+    try:
+        if o["page_size"]:
+            writer.MAX_PAGE_SIZE = o["page_size"]
+        writer.DATAPAGE_VERSION = o["dpv"]
+        kw = dict(compression=o["compression"], row_group_offsets=o["row_group_offsets"], has_nulls=o["has_nulls"], stats=o["stats"],
+                  times=o["times"], object_encoding=rt.object_encoding_for(spec, o), file_scheme=o["file_scheme"],
+                  write_index=o["write_index"], partition_on=[o["partition"]["name"]])
+        if kw["row_group_offsets"] is None:
+            del kw["row_group_offsets"]
+        fastparquet.write(path, df, **kw)
+    finally:
+        writer.MAX_PAGE_SIZE, writer.DATAPAGE_VERSION = old
+
+
 def _job(job):
     from harness import rt
     spec, o = job
-    tmp = tempfile.mkdtemp(prefix="verif-C02w-", dir="/tmp")
+    tmp = tempfile.mkdtemp(prefix="verif-C02w-", dir=_SCRATCH)
     try:
         df = F.build(spec)
         path = os.path.join(tmp, "rt.parquet" if o["file_scheme"] == "simple" else "rt_ds")
         try:
-            rt.write_frame(df, path, spec, o)
+            if o.get("partition"):
+                pk = o["partition"]
+                vals = ["a", "b", "c"] if pk["kind"] == "str" else [0, 1, 2]
+                df[pk["name"]] = [vals[(i * 7 // 3) % pk["k"]] for i in range(len(df))]
+                write_partitioned(df, path, spec, o)
+            else:
+                rt.write_frame(df, path, spec, o)
         except Exception as e:     # noqa: a write that raises is an allowed outcome (C18 owns "and leaves nothing behind")
             return {"outcome": "write-raised", "err": "%s: %s" % (type(e).__name__, str(e)[:200]), "problems": []}
         try:
@@ -212,6 +328,14 @@ def _one(rng, kind, n):
     return spec, _cap_row_groups(spec, o)
 
 
+def _maybe_partition(rng, spec, o):
+    if o["file_scheme"] != "simple" and spec["n"] > 0 and spec["cols"] and rng.random() < 0.35:
+        o["partition"] = {"name": "pkey", "kind": rng.choice(["str", "int"]), "k": rng.choice([1, 2, 3])}
+        if isinstance(o["has_nulls"], list) and rng.random() < 0.5:
+            o["has_nulls"] = o["has_nulls"] + ["pkey"]
+    return o
+
+
 def _cap_row_groups(spec, o):
     """at most ~64 row groups per dataset (a row group per row of an 8193-row frame costs minutes and adds nothing)"""
     rgo, n = o["row_group_offsets"], spec["n"]
@@ -224,6 +348,10 @@ def gen_jobs(ctx):
     from harness import rt
     rng = ctx.rng
     jobs = []
+    import glob
+    for fn in sorted(glob.glob(os.path.join(C.VERIF, "corpus", "C02", "*.json"))):      # minimised past failures first
+        c = json.load(open(fn))
+        jobs.append((c["spec"], c["opts"]))
     sizes_small = [0, 1, 2, 7, 8, 9, 63, 64, 65, 127, 128, 129]
     sizes_big = [255, 256, 257, 8191, 8192, 8193]
     if ctx.quick():
@@ -239,7 +367,7 @@ def gen_jobs(ctx):
         spec = F.gen_spec(rng, n=rng.choice(sizes_small + ([257, 8193] if rng.random() < 0.1 else [])))
         o = rt.gen_opts(rng, spec)
         o["file_scheme"] = rng.choice(["simple", "simple", "hive", "drill"])
-        jobs.append((spec, _cap_row_groups(spec, o)))
+        jobs.append((spec, _maybe_partition(rng, spec, _cap_row_groups(spec, o))))
     return jobs
 
 
@@ -268,6 +396,8 @@ def classify(spec, o, res):
 
 
 def run(ctx):
+    global _SCRATCH
+    _SCRATCH = ctx.scratch
     C.coq_lib()
     ctx.trusted = TRUSTED
     ctx.coq_file(os.path.join(C.COQ, "props", "C02.v"))
@@ -278,12 +408,13 @@ def run(ctx):
     ctx.rule = ("(frame spec, option tuple) pairs: every dtype kind x framing sizes {0,1,2,7,8,9,63,64,65,127,128,129,255,256,257,"
                 "8191,8192,8193} x null patterns x options from one PRNG (compression incl. per-column, row_group_offsets None/int/list, "
                 "has_nulls True/False/'infer'/list, MAX_PAGE_SIZE, DATAPAGE_VERSION 1/2, stats, times int64/int96, object_encoding, "
-                "file_scheme simple/hive/drill incl. _metadata/_common_metadata, write_index); every written file -> pqref fmt_validate "
+                "file_scheme simple/hive/drill incl. _metadata/_common_metadata, partition_on a key column with 1..3 values, write_index); every written file -> pqref fmt_validate "
                 "+ fmt_decode; trivial = the write raised (allowed outcome); distinct = distinct (spec, options)")
     jobs = gen_jobs(ctx)
     results = C.pmap(_job, jobs, init=_init, nproc=min(8, os.cpu_count() or 4), job_timeout=300)
     files = lenient = 0
     decomp = {}
+    wm = {"compared": 0, "differ": 0, "first": None}
     for (spec, o), res in zip(jobs, results):
         case = {"spec": spec, "opts": o}
         if "__crashed__" in res:
@@ -294,6 +425,7 @@ def run(ctx):
         ctx.count("rows", spec["n"])
         ctx.count("dpv", o["dpv"])
         ctx.count("file_scheme", o["file_scheme"])
+        ctx.count("partition_on", (o.get("partition") or {}).get("kind"))
         ctx.count("compression", "percol" if isinstance(o["compression"], dict) else o["compression"])
         ctx.count("has_nulls", "list" if isinstance(o["has_nulls"], list) else o["has_nulls"])
         for k in sorted(set(c["kind"] for c in spec["cols"])):
@@ -311,12 +443,22 @@ def run(ctx):
         known = False
         if res["problems"]:
             known = not ctx.fail(classify(spec, o, res), case, "; ".join("%s: %s" % p for p in res["problems"])[:1500])
+        # byte equality of the deterministic writer model with the code is INFORMATION (DESIGN 4.2): a harmless rewrite of
+        # the writer (other padding, other run choice) must not alarm; the obligation is valid_file/dec_file on the real bytes
+        wm["compared"] += res.get("model_pages", 0)
+        wm["differ"] += len(res.get("model_bad", []))
+        if res.get("model_bad") and not wm["first"]:
+            wm["first"] = res["model_bad"][0]
         if not known:      # a known finding is accounted for by its own entry, not by the correspondence
             ctx.correspondence("valid_file (spec validator) accepts every file the writer produced", case,
                                "Valid", "Valid" if not invalid else invalid[0][1])
     ctx.extra["files_validated"] = files
     ctx.extra["files_needing_leniency_short_final_bitpacked_group"] = lenient
     ctx.extra["decompression"] = decomp
+    ctx.extra["writer_model_Impl_WPagesFmt_pages_compared"] = wm["compared"]
+    ctx.extra["writer_model_pages_not_byte_equal"] = wm["differ"]
+    if wm["first"]:
+        ctx.notes.append("writer model (information only): first page whose bytes differ from Impl/WPagesFmt: %s" % wm["first"])
 
 
 def replay(rep):
